@@ -92,7 +92,9 @@ func observe(w *world, bc *core.Blockchain, b *block.Block) []obsClass {
 			if cs == nil {
 				fmt.Fprintf(&sb, "c%d:nil ", i)
 			} else {
-				fmt.Fprintf(&sb, "c%d:%d:%d:%d ", i, cs.ID, cs.UpdateCounter, cs.NEF.Checksum)
+				mj, _ := json.Marshal(&cs.Manifest) // the manifest object the cache holds (wildcards vs empty lists differ in JSON)
+				mh := sha256.Sum256(mj)
+				fmt.Fprintf(&sb, "c%d:%d:%d:%d:%s ", i, cs.ID, cs.UpdateCounter, cs.NEF.Checksum, hex.EncodeToString(mh[:6]))
 			}
 		}
 		n17 := bc.GetNEP17Contracts()
@@ -555,8 +557,9 @@ func rolesObs(w *world, bc *core.Blockchain) string {
 	return strings.Join(out, ",")
 }
 
-// mgmtObs: per generated contract (every generation), cached id:updateCounter / stored id:updateCounter, and the
-// stored next contract id.
+// mgmtObs: per generated contract (every generation), what the CACHE holds — id:updateCounter and the manifest object's
+// permissions|trusts|groups|safe methods — / what STORAGE holds (read as raw stack items, not through
+// Manifest.FromStackItem), and the stored next contract id.
 func mgmtObs(w *world, bc *core.Blockchain) string {
 	var toks []string
 	byTok := map[string]util.Uint160{}
@@ -572,15 +575,12 @@ func mgmtObs(w *world, bc *core.Blockchain) string {
 		h := byTok[t]
 		cached, stored := "-", "-"
 		if cs := bc.GetContractState(h); cs != nil {
-			cached = fmt.Sprintf("%d:%d", cs.ID, cs.UpdateCounter)
+			cached = fmt.Sprintf("%d:%d:%s", cs.ID, cs.UpdateCounter, w.manObjStr(&cs.Manifest))
 		}
-		if si := bc.GetStorageItem(nativeids.ContractManagement, append([]byte{8}, h.BytesBE()...)); si != nil {
-			cs := new(state.Contract)
-			if err := stackitem.DeserializeConvertible(si, cs); err == nil {
-				stored = fmt.Sprintf("%d:%d", cs.ID, cs.UpdateCounter)
-			} else {
-				stored = "?"
-			}
+		if idu, man := storedContract(bc, h); man != nil {
+			stored = idu + ":" + w.manItemStr(man)
+		} else {
+			stored = idu
 		}
 		out = append(out, fmt.Sprintf("%s=%s/%s", t, cached, stored))
 	}
